@@ -19,6 +19,7 @@ import Golib.Proof.C07Fast
 import Golib.Proof.C07InPlace
 import Golib.Proof.C07FormatBuf
 import Golib.Proof.C07Trans
+import Golib.Proof.C07TransParse
 
 namespace Golib.C07
 
@@ -482,5 +483,85 @@ theorem c07_trans_toUpper (dst : List (BitVec 8)) :
 example : Golib.Gen.Trans.C07.toUpper [97#8, 55#8, 102#8, 95#8] = .ok [65#8, 55#8, 70#8, 95#8] := by
   decide +kernel
 -- END wave-8 tie block (trans-strconv)
+
+-- BEGIN wave-9 tie block (trans-parse)
+/-! ### Regenerated tie (wave 9): the escape PARSERS translated by `go2lean`
+
+`OctalParse(dst, src)` and `HexParse(dst, src)` of `strz/enc.go` are regenerated into
+`Golib.Gen.Trans.C07.OctalParse/HexParse` on every run (`dst` is an in-out parameter of the translation: the
+result is `(n, dst afterwards)`; PRECONDITION of the translation: `dst` and `src` do not overlap — the in-place use
+`dst == src` keeps its own model `c07_inplace_eq`).  Abstraction: `Tie.bytesOf = List.map BitVec.toNat` on both
+arguments and on the returned `dst`, the count is the same number. -/
+
+/-- TIE: for EVERY `dst` and `src` (also a `dst` that is too short) the translated `OctalParse` returns exactly what the
+cursor model `parse octalBody` — the definition `c07_no_panic`, `c07_len_le`, `c07_cursor_eq_fun`, `c07_octal_roundtrip`
+are about — returns, panics exactly where the model panics, and its fuel `len(src)+1` never runs out. -/
+theorem c07_trans_OctalParse (dst src : List (BitVec 8)) :
+    match parse octalBody (Tie.bytesOf dst) (Tie.bytesOf src) with
+    | .ok (n, d) => ∃ d', Golib.Gen.Trans.C07.OctalParse dst src = .ok ((n : Int), d') ∧ Tie.bytesOf d' = d
+    | .panic => Golib.Gen.Trans.C07.OctalParse dst src = .panic
+    | .fuel => False :=
+  (Tie.trans_OctalParse_rel dst src).tie
+
+/-- TIE: the same for `HexParse` and `parse hexBody`. -/
+theorem c07_trans_HexParse (dst src : List (BitVec 8)) :
+    match parse hexBody (Tie.bytesOf dst) (Tie.bytesOf src) with
+    | .ok (n, d) => ∃ d', Golib.Gen.Trans.C07.HexParse dst src = .ok ((n : Int), d') ∧ Tie.bytesOf d' = d
+    | .panic => Golib.Gen.Trans.C07.HexParse dst src = .panic
+    | .fuel => False :=
+  (Tie.trans_HexParse_rel dst src).tie
+
+/-- Non-vacuity: `a\101b` parses to `aAb` (3 bytes; the rest of `dst` keeps what the copies left there); a `dst` that is
+too short panics; `\x4g` is kept verbatim. -/
+example : Golib.Gen.Trans.C07.OctalParse [0#8, 0#8, 0#8, 0#8, 0#8, 0#8] [97#8, 92#8, 49#8, 48#8, 49#8, 98#8]
+      = .ok (3, [97#8, 65#8, 98#8, 0#8, 0#8, 0#8]) ∧
+    Golib.Gen.Trans.C07.OctalParse [0#8] [97#8, 92#8, 49#8, 48#8, 49#8, 98#8] = .panic ∧
+    Golib.Gen.Trans.C07.HexParse [0#8, 0#8, 0#8, 0#8] [92#8, 120#8, 52#8, 103#8]
+      = .ok (4, [92#8, 120#8, 52#8, 103#8]) := by
+  refine ⟨?_, ?_, ?_⟩ <;> decide +kernel
+
+/-- The property clauses directly on the generated definitions — "parses ANY input safely": for every `src` whatsoever
+(malformed, truncated at any position) and every `dst` at least as long, the translated `OctalParse` does not panic,
+returns `0 ≤ n ≤ len(src)`, keeps `len(dst)`, and `dst[:n]` is the functional parser's output. -/
+theorem c07_trans_OctalParse_total (dst src : List (BitVec 8)) (h : src.length ≤ dst.length) :
+    ∃ (n : Nat) (d' : List (BitVec 8)), Golib.Gen.Trans.C07.OctalParse dst src = .ok ((n : Int), d') ∧
+      n ≤ src.length ∧ d'.length = dst.length ∧
+      Tie.bytesOf (d'.take n) = parseFun octalDec (Tie.bytesOf src) :=
+  Tie.gen_total .octal _ Tie.trans_OctalParse_rel dst src h
+
+theorem c07_trans_HexParse_total (dst src : List (BitVec 8)) (h : src.length ≤ dst.length) :
+    ∃ (n : Nat) (d' : List (BitVec 8)), Golib.Gen.Trans.C07.HexParse dst src = .ok ((n : Int), d') ∧
+      n ≤ src.length ∧ d'.length = dst.length ∧
+      Tie.bytesOf (d'.take n) = parseFun hexDec (Tie.bytesOf src) :=
+  Tie.gen_total .hex _ Tie.trans_HexParse_rel dst src h
+
+/-- The round-trip clause on the generated definition: whatever byte string `s` was formatted (`octalFormat`, the model
+of `OctalFormat`), the translated `OctalParse` applied to the formatted bytes gives `s` back. -/
+theorem c07_trans_OctalParse_roundtrip (s : Bytes) (hs : IsBytes s) (src dst : List (BitVec 8))
+    (hf : octalFormat s = some (Tie.bytesOf src)) (h : src.length ≤ dst.length) :
+    ∃ (n : Nat) (d' : List (BitVec 8)), Golib.Gen.Trans.C07.OctalParse dst src = .ok ((n : Int), d') ∧
+      Tie.bytesOf (d'.take n) = s := by
+  obtain ⟨n, d', hg, -, -, hp⟩ := c07_trans_OctalParse_total dst src h
+  obtain ⟨out, ho, -, hr⟩ := octal_fun_roundtrip s hs
+  rw [hf] at ho
+  cases ho
+  exact ⟨n, d', hg, by rw [hp, hr]⟩
+
+theorem c07_trans_HexParse_roundtrip (s : Bytes) (hs : IsBytes s) (src dst : List (BitVec 8))
+    (hf : hexFormat s = some (Tie.bytesOf src)) (h : src.length ≤ dst.length) :
+    ∃ (n : Nat) (d' : List (BitVec 8)), Golib.Gen.Trans.C07.HexParse dst src = .ok ((n : Int), d') ∧
+      Tie.bytesOf (d'.take n) = s := by
+  obtain ⟨n, d', hg, -, -, hp⟩ := c07_trans_HexParse_total dst src h
+  obtain ⟨out, ho, -, hr⟩ := hex_fun_roundtrip s hs
+  rw [hf] at ho
+  cases ho
+  exact ⟨n, d', hg, by rw [hp, hr]⟩
+
+/-- Non-vacuity of the round trip: `octalFormat "\\A" = "\\134\\101"` as `BitVec 8` bytes. -/
+example : octalFormat [92, 65] = some (Tie.bytesOf [92#8, 49#8, 51#8, 52#8, 92#8, 49#8, 48#8, 49#8]) ∧ IsBytes [92, 65] := by
+  constructor
+  · decide
+  · unfold IsBytes; decide
+-- END wave-9 tie block (trans-parse)
 
 end Golib.C07
